@@ -333,3 +333,26 @@ Example C15_utf8_input_needed :
   | _ => False
   end.
 Proof. exact Utf8Out.ex_utf8_input_needed. Qed.
+
+(* ---- the string encoder itself: encodeState.string (and its twin stringBytes, checked to be the same
+   function) RE-TRANSLATED from v5/internal/json/encode.go on every run (tools/goquote2v -> gen/QuoteGen.v:
+   the loop as a step function with a range guard on every index and slice expression, the tables of
+   gen/TablesGen.v) and proved equal to the model's quote for EVERY byte string (QuoteTie.v); the loop
+   never runs out of fuel and never indexes out of range.  utf8.DecodeRune is modelled (Utf8Rune.v). ---- *)
+From JP Require QuoteTie.
+From JP.gen Require QuoteGen.
+
+Theorem C15_go_string_encoder_is_quote : forall esc s,
+  QuoteGen.quote_full_gen esc s = [x22] ++ quote esc s ++ [x22].
+Proof. exact QuoteTie.quote_full_gen_is_quote. Qed.
+Print Assumptions C15_go_string_encoder_is_quote.
+
+Theorem C15_go_string_encoder_appends : forall esc s out0,
+  QuoteGen.quote_run esc s out0 = QuoteGen.QOk (out0 ++ [x22] ++ quote esc s ++ [x22]).
+Proof. exact QuoteTie.quote_run_is_quote. Qed.
+Print Assumptions C15_go_string_encoder_appends.
+
+Theorem C15_go_string_encoder_total : forall esc s out0,
+  QuoteGen.quote_run esc s out0 <> QuoteGen.QFuel /\ QuoteGen.quote_run esc s out0 <> QuoteGen.QPanic.
+Proof. exact QuoteTie.quote_run_total. Qed.
+Print Assumptions C15_go_string_encoder_total.
